@@ -17,6 +17,10 @@ RULE = ("random multifurcating trees (3..14 tips, rooted/unrooted, parent slot a
         "(complement of a clade on unrooted trees, first inner root child on rooted trees); the observation includes the "
         "tip-name index, ExistsTip/TipIndex of every tip and the bitset width of every branch after reroot/unroot/outgroup/"
         "midpoint; thorough tier adds every tip subset of trees with <= 6 tips; "
+        "(r3) one outgroup list (absent names at every position, repeats) applied in a loop to 2-4 trees, each result "
+        "judged on its own and the list required to come back unchanged; outgroup after a public edit that leaves the "
+        "tip-name index stale (Node.SetName, GraftTipOnEdge) naming the new tip; midpoint on trees with negative lengths "
+        "(outside the quantifier: correspondence only); "
         "a case is non-trivial when the operation changed the structure; distinct = distinct case text")
 TRUSTED = ["tree built through NewNode/NewEdge + verif hooks (exact neighbour order); dump through Neigh()/Edges()/Left()/Right()"]
 ASSUMPTIONS = ["math/rand: Intn/Int31n transcribed in Model/Rand.v; the recorded Int63 stream is what the code under test consumes"]
@@ -207,6 +211,57 @@ def gen(rng, tier):
         out.append({"sx": sx({"op": Sym("midpoint"), "tree": T(t)}), "meta": dict(meta, op="midpoint")})
         out.append({"sx": sx({"op": Sym("outgroup"), "tree": T(t), "names": ["t0"], "remove": i % 2 == 0, "strict": False}),
                     "meta": dict(meta, op="outgroup", og="twotip")})
+    # (r3) one outgroup list applied in a loop to several trees, as `gotree reroot outgroup -i multi.nw a b zz` does:
+    # absent names at every position, repeated names; every result judged on its own + the list must come back unchanged
+    for i in range({"quick": 60, "thorough": 1500, "search": 150}[tier]):
+        k = rng.choice([2, 2, 3, 4])
+        first = g.tree(lo=3, hi=9, maxdeg=4, lenmode="all", supmode="mixed", up_random=rng.random() < 0.5)
+        trees = [first]
+        for _ in range(k - 1):
+            trees.append(first if rng.random() < 0.4 else
+                         g.tree(lo=3, hi=9, maxdeg=4, lenmode="all", supmode="mixed", up_random=rng.random() < 0.5))
+        kind, base = rng.choice(outgroups(rng, first, tier)[:6])
+        names = list(base)
+        for _ in range(rng.choice([1, 1, 2, 3])):
+            names.insert(rng.randrange(0, len(names) + 1), "zz%d" % rng.randrange(3))
+        if rng.random() < 0.3 and base:
+            names.insert(rng.randrange(0, len(names) + 1), rng.choice(base))
+        o = {"op": Sym("outgroup_multi"), "trees": [T(x) for x in trees], "names": names,
+             "remove": rng.random() < 0.3, "strict": rng.random() < 0.4}
+        out.append({"sx": sx(o), "meta": {"op": "outgroup_multi", "ntrees": k, "og": kind, "nnames": len(names)}})
+    # (r3) the tip-name index left stale by a public edit before rooting: a tip renamed with Node.SetName, or a tip
+    # grafted with GraftTipOnEdge, after the indexes were built; the outgroup names the new tip and old ones
+    for i in range({"quick": 80, "thorough": 1500, "search": 200}[tier]):
+        t = g.tree(lo=3, hi=9, maxdeg=4, lenmode="all", supmode="mixed", rooted=rng.random() < 0.25,
+                   up_random=rng.random() < 0.5)
+        L = leaves(t)
+        if i % 2 == 0:
+            tipn = rng.choice([x for x in preorder(t) if not kids(x)])
+            old = tipn["name"]
+            tipn["name"] = "nw"
+            ogs = [ns for _, ns in outgroups(rng, t, tier) if "nw" in ns and len(ns) >= 2]
+            names = rng.choice(ogs) if ogs else ["nw", rng.choice([x for x in leaves(t) if x != "nw"])]
+            o = {"op": Sym("outgroup"), "tree": T(t), "pre": [Sym("rename"), old, "nw"], "names": list(names),
+                 "remove": rng.random() < 0.25, "strict": rng.random() < 0.5}
+            out.append({"sx": sx(o), "meta": {"op": "outgroup", "pre": "rename", "rooted": len(t["slots"]) == 2}})
+        else:
+            es = list(all_edges(t))
+            j = rng.randrange(len(es))
+            below = leaves(es[j][1])
+            names = below + ["gz"] if rng.random() < 0.7 else [rng.choice(L), "gz"]
+            rng.shuffle(names)
+            o = {"op": Sym("outgroup"), "tree": T(t), "pre": [Sym("graft"), j, "gz"], "names": names,
+                 "remove": rng.random() < 0.25, "strict": rng.random() < 0.5}
+            out.append({"sx": sx(o), "meta": {"op": "outgroup", "pre": "graft", "rooted": len(t["slots"]) == 2}})
+    # (r3) negative lengths (other than the code -1 of "no length") are outside the property's quantifier ("trees with
+    # branch lengths"): correspondence only for midpoint (the judge applies a reduced oracle: well-formed, same tips)
+    for i in range({"quick": 40, "thorough": 1000, "search": 150}[tier]):
+        t = g.tree(lo=3, hi=9, maxdeg=4, lenmode="all", supmode="none", up_random=rng.random() < 0.5)
+        for e, c in all_edges(t):
+            v = Fraction(rng.randrange(-5, 11)) if i % 2 == 0 else Fraction(rng.randrange(-128, 257), 64)
+            e["len"] = v if v != -1 else Fraction(-2)
+        out.append({"sx": sx({"op": Sym("midpoint"), "tree": T(t)}),
+                    "meta": {"op": "midpoint", "lens": "negative", "ntips": len(leaves(t))}})
     # every tip subset of small trees, both flags
     m = {"quick": 4, "thorough": 150, "search": 10}[tier]
     for t, style in root_trees(rng, g, m, 5 if tier == "quick" else 6):
